@@ -324,7 +324,7 @@ impl Hist {
             let d16 = NonZeroU8::new(16).unwrap();
             // every pool starts non-empty (as on a real chain); pools the history uses start just
             // below a subtree boundary
-            let mut size = |rng: &mut ChaCha20Rng, used: bool| -> u64 {
+            let size = |rng: &mut ChaCha20Rng, used: bool| -> u64 {
                 if used { (1u64 << 16) * rng.gen_range(1..=2) - rng.gen_range(3..60) } else { rng.gen_range(5..2000) }
             };
             let (sz_s, sz_o, sz_i) = (
